@@ -3,6 +3,7 @@
 use super::ast::{eval, Node};
 fn num(x: i64) -> Box<Node> { Box::new(Node::Number(x)) }
 fn ok(r: Result<i64, Box<dyn std::error::Error>>) -> Option<i64> { match r { Ok(v) => Some(v), Err(e) => { std::mem::forget(e); None } } }
+fn fact128(n: i64) -> i128 { let mut r: i128 = 1; let mut i: i128 = 2; while i <= n as i128 && i <= 25 { r *= i; i += 1; } r }
 fn fits(x: i128) -> bool { x >= i64::MIN as i128 && x <= i64::MAX as i128 }
 fn same(a: f64, b: f64) -> bool { (a.is_nan() && b.is_nan()) || a.to_bits() == b.to_bits() }
 static mut CALLS: u32 = 0; static mut TAG: u8 = 0; static mut A0: f64 = 0.0; static mut A1: f64 = 0.0; static mut RES: f64 = 0.0;
@@ -94,7 +95,6 @@ fn step_div_min_by_minus_one() { assert!(ok(eval(Node::Divide(num(i64::MIN), num
 fn step_mod_min_by_minus_one() { assert!(ok(eval(Node::Modulo(num(i64::MIN), num(-1)))) == Some(0), "MIN % -1 is 0"); }
 
 // ---- n! and ^ -------------------------------------------------------------------------------------------------------
-fn fact128(n: i64) -> i128 { let mut r: i128 = 1; let mut i: i128 = 2; while i <= n as i128 && i <= 25 { r *= i; i += 1; } r }
 // @obligation owners=C06,C10,C15,C01,C02 fn=eval_i64::ast::eval/Factorial exact=1
 // full domain: for n >= 21 the product has left i64 after 20 multiplications, so the loop is left with Err whatever n is - the unwinding
 // assertion proves that bound (a loop that runs on to n is an unwinding failure: C02)
